@@ -61,7 +61,7 @@ func MayBeNilErr(v ssa.Value, prev, b *ssa.BasicBlock, okVal func(ssa.Value) boo
 		// known non-nil by a dominating `v != nil`
 		if b != nil {
 			for _, f := range DomFacts(b) {
-				if f.Op == token.NEQ && ((f.X == v && IsNilConst(f.Y)) || (f.Y == v && IsNilConst(f.X))) {
+				if f.Op == token.NEQ && ((SameValue(f.X, v) && IsNilConst(f.Y)) || (SameValue(f.Y, v) && IsNilConst(f.X))) {
 					return false
 				}
 			}
